@@ -482,7 +482,8 @@ def oracle(cfg, case, obs):
     failed = 0
     for i, (k, o, d) in enumerate(items):
         rep = obs['replies'].get(i)
-        overran = fin[i] is None
+        # not done P seconds after its arrival: it overran, whatever it did afterwards
+        overran = fin[i] is None or fin[i] > case['arr'][i] + P + 1e-6
         if not live(i):
             continue
         if o[0] in OUTSIDE:
@@ -698,6 +699,8 @@ def simulate(case):
         else:
             f = a + c['throttle'] + d
             rel = dl if (o[0] == 't' or f >= dl) else f
+            if f == dl and o[0] != 't':
+                out['tie'] = True       # the handler would finish at the very instant of its deadline
         out[i] = rel
         free = sorted(free[1:] + [rel])
     return out
@@ -706,6 +709,8 @@ def simulate(case):
 def no_ties(case):
     """no two things at one instant, overruns of requests that arrived together apart"""
     sim = simulate(case)
+    if sim.pop('tie', False):
+        return False
     arr = case['arr']
     done = [t for i, t in sim.items() if t < arr[i] + P]
     over = {t for i, t in sim.items() if t >= arr[i] + P}
